@@ -283,10 +283,19 @@ class ForwardScheduler(IScheduler):
         if _task.id in calculated:
             return
 
+        # Task can be reached through dependency link before its parents,
+        # so predecessors of parents are applied here, not only passed down from parent
+        for parent in _task.all_parents:
+            for pred in parent.predecessors:
+                if pred.wbs == _task.wbs:
+                    self.__forward_pass(pred, self.__start, resource_usage, calculated)
+                if pred.end is not None:
+                    min_date = max(min_date, pred.end)
+
         for pred in _task.predecessors:
             # Tasks outside scheduled WBS have fixed dates and must not be touched
             if pred.wbs == _task.wbs:
-                self.__forward_pass(pred, min_date, resource_usage, calculated)
+                self.__forward_pass(pred, self.__start, resource_usage, calculated)
 
         max_predecessor_ends = max([t.end for t in _task.predecessors if t.end is not None] + [min_date])
 
@@ -458,10 +467,19 @@ class BackwardScheduler(IScheduler):
         if _task.id in calculated:
             return
 
+        # Task can be reached through dependency link before its parents,
+        # so successors of parents are applied here, not only passed down from parent
+        for parent in _task.all_parents:
+            for succ in parent.successors:
+                if succ.wbs == _task.wbs:
+                    self.__backward_pass(succ, self.__end, resource_usage, calculated)
+                if succ.start is not None:
+                    min_date = min(min_date, succ.start)
+
         for pred in _task.successors:
             # Tasks outside scheduled WBS have fixed dates and must not be touched
             if pred.wbs == _task.wbs:
-                self.__backward_pass(pred, min_date, resource_usage, calculated)
+                self.__backward_pass(pred, self.__end, resource_usage, calculated)
 
         min_successor_starts = min([t.start for t in _task.successors if t.start is not None] + [min_date])
 
